@@ -288,8 +288,9 @@ inline std::string templ(const std::string& text, const std::vector<std::string>
   return out + tail; }
 template <class Ad> void composite(const char* name) {
   using Q = typename Ad::Q; using T = typename Ad::T; constexpr int N = Ad::N;
-  for (int variant = 0; variant < 3; variant++) {
-    T c[9]; for (int i = 0; i < N; i++) c[i] = variant == 0 ? (T)((i + 1) * 1.25L) * ((i & 1) ? -1 : 1) : variant == 1 ? std::ldexp((T)(1.0L + 0.1L * i), (i * 7) % 40 - 20) : (T)(i == 0 ? 0 : -(T)0.001L * (i + 2));
+  for (int variant = 0; variant < 4; variant++) {
+    T c[9]; for (int i = 0; i < N; i++) c[i] = variant == 0 ? (T)((i + 1) * 1.25L) * ((i & 1) ? -1 : 1) : variant == 1 ? std::ldexp((T)(1.0L + 0.1L * i), (i * 7) % 40 - 20) : variant == 2 ? (T)(i == 0 ? 0 : -(T)0.001L * (i + 2))
+      : -std::ldexp((T)(1.0L + 0.1L * i + 0.0123456789L), ((i & 1) ? -1 : 1) * (std::numeric_limits<T>::max_exponent / 2 - 3 * i));   // the longest texts: negative, full digits, widest exponents (four digits in long double)
     Q q = Ad::make(c); T v[9]; getc(q, v); std::vector<std::string> nums; for (int i = 0; i < N; i++) nums.push_back(PhQ::Print(v[i]));
     std::string abbr; bool dim = false; if constexpr (has_unit<Q>::value) { abbr = std::string(PhQ::Abbreviation(Q::Unit())); dim = true; }
     std::ostringstream os; os << q; const char* forms[5] = {"Print", "JSON", "XML", "YAML", "stream"}; std::string texts[5] = {q.Print(), q.JSON(), q.XML(), q.YAML(), os.str()};
